@@ -79,6 +79,9 @@ type Params struct {
 	RunTag   string            // makes origins (hence log ids and counters) unique per run
 	Sigma    []uint64          `json:"Sigma,omitempty"`   // explicit embedding (overrides Embed)
 	Origins  map[string]string `json:"Origins,omitempty"` // fixed origins (e.g. the Go SumDB's)
+	// BigExt: every sixth checkpoint with extension lines carries one of 17 KiB (legal: the witness and the read API have no size limit; only
+	// the add-checkpoint endpoint caps its request bodies, so the drivers that go through it leave this off)
+	BigExt bool `json:"BigExt,omitempty"`
 }
 
 // LogW is one configured log.
@@ -328,6 +331,8 @@ func (w *World) Concretise(log string, r Req, stored *CP) Concrete {
 		if w.Rng.Intn(3) == 0 {
 			// extension data may contain an EMPTY line (a note is split from its signatures at the LAST blank line, not the first)
 			ext = "verif-extension before an empty line\n\n" + extText
+		} else if w.P.BigExt && w.Rng.Intn(5) == 0 {
+			ext = extText + "big " + strings.Repeat("0123456789abcdef", 1100) + "\n"
 		}
 	}
 	text := ref.CheckpointText(l.Origin, c.Size, c.Root, ext)
